@@ -40,6 +40,11 @@ func init() {
 				b = 2
 			}
 			for _, sc := range out {
+				if sc.Conf != nil {
+					c := *sc.Conf
+					c.DebugLog = true // log arguments are read where the log call stands: part of the execution
+					sc.Conf = &c
+				}
 				sc.Bound = b
 				sc.IgnoreDeadlock = true
 				sc.Name = "c13-" + sc.Name
